@@ -244,17 +244,18 @@ def c03_check(pid, tier, seed, replay=None):
         if tier == "replay":
             if os.path.exists(os.path.join(replay, "trace.ndjson")):
                 return opfamily.op_replay(pid, wd, replay, opfamily.FAMILY[pid])
-            return table_replay(pid, wd, replay, [("RedirectURI", "tbl-redirect", ("C03.",)), ("RequestObject", "tbl-reqobj", ("C03.",))])
+            return table_replay(pid, wd, replay, [("RedirectURI", "tbl-redirect", ("C03.",)), ("RequestObject", "tbl-reqobj", ("C03.",)), ("AuthResponse", "tbl-authresp", ("C03.",))])
         part = opfamily.op_part(pid, tier, seed, wd, opfamily.FAMILY[pid])
         tb = table_run(pid, "RedirectURI", "tbl-redirect", tier, seed, wd, ("C03.",), c03_sig, need=c03_need, label="redirect-URI table")
         tb2 = table_run(pid, "RequestObject", "tbl-reqobj", tier, seed, wd, ("C03.",), c14r_sig, need=c14r_need, label="request object table (redirect rule)")
+        tb3 = table_run(pid, "AuthResponse", "tbl-authresp", tier, seed, wd, ("C03.",), c11_sig, need=c11_need, label="authorization response table (target rule)")
         for k in ("F:ok", "F:refused", "P:login", "P:page", "P:redirErr", "L:login", "L:json"):
             if not tb["coverage"].get(k):
                 raise Inconclusive(f"vacuous table run: no observation {k}")
-        new, known = report(pid, tb["viols"] + tb2["viols"], lambda v: v["signature"],
+        new, known = report(pid, tb["viols"] + tb2["viols"] + tb3["viols"], lambda v: v["signature"],
                             lambda v: dict(rule=v["rule"], module=v["module"], id=v["id"], case=v["case"], observed=v["observed"]),
                             wd, [], seed, tier, extra_save=write_cases)
-        merge_evidence(pid, tier, seed, t0, part["coverage"], [tb, tb2], part["new"] + new, part["known"] + known,
+        merge_evidence(pid, tier, seed, t0, part["coverage"], [tb, tb2, tb3], part["new"] + new, part["known"] + known,
                        part["assumptions"] + ["URI components are concretised injectively (harness/tbldrv/redirect.go); glob semantics = doublestar on the three patterns of the model"])
         return 1 if (part["new"] + new) else 0
     finally:
